@@ -38,7 +38,6 @@ Reduced(o) ==
     [] o = "pp" -> {<<None, None>>, <<"pp1", None>>, <<None, "ppdef">>, <<"pp2", "pp1">>}
     [] o = "pa" -> {<<None, None>>, <<"pa1", None>>, <<None, "parfc">>, <<"pamix", "pa1">>, <<"pa1", "pamix">>}
     [] o = "hb" -> {<<None, None>>, <<"h0", None>>, <<None, "h17">>, <<"h8", "h33">>, <<"h33", "h8">>, <<"h32", "h0">>}
-PS(o) == IF Tier = "quick" THEN Reduced(o) ELSE States(o)
 
 NoPl == [o \in Opts |-> <<None, None>>]
 BaseCli  == [NoPl EXCEPT !["a"] = <<"on", None>>, !["p"] = <<"on", None>>, !["s"] = <<"s1", None>>,
@@ -55,12 +54,15 @@ BaseMin  == [NoPl EXCEPT !["a"] = <<None, "true">>, !["s"] = <<"s2", None>>,
 BaseNone == [NoPl EXCEPT !["s"] = <<"s1", None>>, !["r"] = <<None, "r1">>, !["pv"] = <<"on", None>>,
                          !["i"] = <<None, "in1">>, !["o"] = <<"out1", None>>]
 Bases     == {BaseCli, BaseCfg, BaseUndo, BaseMin, BaseNone}
-PairBases == IF Tier = "quick" THEN {BaseCli} ELSE {BaseCli, BaseMin}
 
 PlaceSet == UNION {UNION {{[x \in Opts |-> IF x = o THEN st ELSE b[x]] : st \in States(o)} : o \in Opts} : b \in Bases}
-PairSet  == UNION {UNION {UNION {
-               {[x \in Opts |-> IF x = o1 THEN s1 ELSE IF x = o2 THEN s2 ELSE b[x]] : s1 \in PS(o1), s2 \in PS(o2)}
-               : o2 \in {y \in Opts : y # o1}} : o1 \in Opts} : b \in PairBases}
+PairsOn(b, P(_)) == UNION {UNION {
+               {[x \in Opts |-> IF x = o1 THEN s1 ELSE IF x = o2 THEN s2 ELSE b[x]] : s1 \in P(o1), s2 \in P(o2)}
+               : o2 \in {y \in Opts : y # o1}} : o1 \in Opts}
+\* quick: representative placements around BaseCli; thorough: all placements
+\* around BaseCli and the representative ones around BaseMin
+PairSet  == IF Tier = "quick" THEN PairsOn(BaseCli, Reduced)
+            ELSE PairsOn(BaseCli, States) \cup PairsOn(BaseMin, Reduced)
 
 \* validation table: effective values, then a uniform placement
 TFlag == {None, "on"}
